@@ -326,7 +326,7 @@ pub fn gen_huge_config(rng: &mut Rng) -> Config {
         ratio,
         rate_in,
         rate_out,
-        max_rel: if kind == Kind::FastOut { *rng.pick(&[1.0, 1.05]) } else { 1.0 },
+        max_rel: if kind == Kind::FastOut { *rng.pick(&[1.0, 1.05, 1.3]) } else { 1.0 },
         chunk,
         sub_chunks,
         channels: 1,
